@@ -11,6 +11,7 @@ import (
 	"pgregory.net/rapid"
 
 	"verif/harness/internal/ev"
+	"verif/harness/internal/refwire"
 	"verif/harness/internal/wiregen"
 )
 
@@ -188,6 +189,17 @@ func sweepValues(md protoreflect.MessageDescriptor, runtime string) []*dynamicpb
 				m.Set(fd, protoreflect.ValueOfMap(mp))
 				add(m)
 			}
+			if vm := fd.MapValue().Message(); vm != nil { // message values of an exact size around the length-prefix limits
+				for _, target := range []int{127, 128, 129, 16383, 16384, 16385} {
+					if child := sizedChild(vm, target); child != nil {
+						m := dynamicpb.NewMessage(md)
+						mp := m.NewField(fd).Map()
+						mp.Set(kvs[1%len(kvs)].MapKey(), protoreflect.ValueOfMessage(child))
+						m.Set(fd, protoreflect.ValueOfMap(mp))
+						add(m)
+					}
+				}
+			}
 			if fd.MapValue().Message() == nil { // every value boundary under one key
 				for _, vv := range boundaryFor(fd.MapValue()) {
 					m := dynamicpb.NewMessage(md)
@@ -205,6 +217,26 @@ func sweepValues(md protoreflect.MessageDescriptor, runtime string) []*dynamicpb
 				}
 				fillRequired(sub, 2)
 				return protoreflect.ValueOfMessage(sub)
+			}
+			// children of an exact encoded size around the 1- and 2-byte length-prefix limits (padded with one unknown
+			// length-delimited field, which every message type can carry)
+			for _, target := range []int{127, 128, 129, 16383, 16384, 16385} {
+				child := sizedChild(fd.Message(), target)
+				if child == nil {
+					continue
+				}
+				m := dynamicpb.NewMessage(md)
+				switch {
+				case fd.IsList():
+					l := m.NewField(fd).List()
+					l.Append(protoreflect.ValueOfMessage(sizedChild(fd.Message(), 127)))
+					l.Append(protoreflect.ValueOfMessage(child))
+					l.Append(mk(0))
+					m.Set(fd, protoreflect.ValueOfList(l))
+				default:
+					m.Set(fd, protoreflect.ValueOfMessage(child))
+				}
+				add(m)
 			}
 			if fd.IsList() {
 				for _, shape := range [][]int{{0}, {1}, {0, 1}, {1, 0, 1}, {0, 0}} {
@@ -272,6 +304,40 @@ func sweepValues(md protoreflect.MessageDescriptor, runtime string) []*dynamicpb
 		}
 	}
 	return out
+}
+
+// sizedChild returns a message of type md whose encoding is exactly size bytes: its required fields plus one
+// unknown length-delimited field (number outside the schema) as padding.  nil if size is too small.
+func sizedChild(md protoreflect.MessageDescriptor, size int) *dynamicpb.Message {
+	m := dynamicpb.NewMessage(md)
+	fillRequired(m, 2)
+	base, err := refMarshal.Marshal(m)
+	if err != nil {
+		return nil
+	}
+	num := 1000003
+	for md.Fields().ByNumber(protoreflect.FieldNumber(num)) != nil || inExtensionRange(md, num) {
+		num++
+	}
+	key := refwire.AppendKey(nil, num, refwire.WTLen)
+	for l := size - len(base) - len(key) - 1; l >= 0 && l >= size-len(base)-len(key)-4; l-- {
+		pad := refwire.AppendLen(append([]byte{}, key...), repeat('u', l))
+		if len(base)+len(pad) == size {
+			m.SetUnknown(pad)
+			return m
+		}
+	}
+	return nil
+}
+
+func inExtensionRange(md protoreflect.MessageDescriptor, num int) bool {
+	rs := md.ExtensionRanges()
+	for i := 0; i < rs.Len(); i++ {
+		if protoreflect.FieldNumber(num) >= rs.Get(i)[0] && protoreflect.FieldNumber(num) < rs.Get(i)[1] {
+			return true
+		}
+	}
+	return false
 }
 
 var listSweepLens = []int{12, 13, 15, 16, 17, 25, 26, 31, 32, 33, 63, 64, 65, 127, 128, 129, 1638, 1639, 2047, 2048, 2049, 3276, 3277, 4095, 4096, 4097, 8191, 8192, 8193, 16383, 16384, 16385}
